@@ -13,9 +13,11 @@ import (
 	"net"
 	"net/http"
 	"os"
+	"runtime"
 	"sort"
 	"strings"
 	"sync"
+	"sync/atomic"
 	"testing"
 	"time"
 
@@ -57,6 +59,7 @@ type World struct {
 	reqSeq   int
 	Notes    []string
 	finished bool
+	probe    *probeRT
 }
 
 type Image struct {
@@ -129,9 +132,17 @@ type ReqSpec struct {
 
 var discardLogger = slog.New(slog.NewTextHandler(io.Discard, &slog.HandlerOptions{Level: slog.LevelError + 10}))
 
-type probeRT struct{ inner http.RoundTripper }
+type probeRT struct {
+	inner  http.RoundTripper
+	killed atomic.Bool
+}
 
 func (p *probeRT) RoundTrip(req *http.Request) (*http.Response, error) {
+	if p.killed.Load() {
+		// teardown kill-switch for probe loops the code under test leaked
+		leakedProbeLoops.Add(1)
+		runtime.Goexit()
+	}
 	vsched.HarnessPoint("probe-send")
 	resp, err := p.inner.RoundTrip(req)
 	// what the proxy is about to learn from this probe
@@ -147,6 +158,8 @@ func (p *probeRT) RoundTrip(req *http.Request) (*http.Response, error) {
 }
 
 var execCounter int
+
+var leakedProbeLoops atomic.Int64
 
 // NewWorld builds a fresh router on a fresh in-memory network. Must be called
 // inside the bubble.
@@ -166,7 +179,8 @@ func NewWorld(t *testing.T, captureLog bool) *World {
 	w.State = dir + "/kamal-proxy.state"
 	os.Setenv("TMPDIR", dir+"/tmp")
 	os.Mkdir(dir+"/tmp", 0o755)
-	http.DefaultTransport = &probeRT{inner: &http.Transport{DialContext: memnet.DialProbe, DisableKeepAlives: true}}
+	w.probe = &probeRT{inner: &http.Transport{DialContext: memnet.DialProbe, DisableKeepAlives: true}}
+	http.DefaultTransport = w.probe
 	if captureLog {
 		w.Log = newLogCapture()
 		slog.SetDefault(slog.New(w.Log))
@@ -228,6 +242,9 @@ func (w *World) Finish() {
 	w.mu.Unlock()
 	if w.S != nil {
 		w.S.Kill()
+	}
+	if w.probe != nil {
+		w.probe.killed.Store(true)
 	}
 	w.Net.Close()
 	vsync.WakeAll()
